@@ -120,6 +120,11 @@ def loop_header(ev, s, env, depth):
                 var = v
                 break
     c0 = A.strip_casts(cond) if cond is not None else None
+    if var is None and init is not None:
+        # C style: the counter is declared earlier, `for (i=0; i<N; i++)`
+        i0 = A.strip_casts(init)
+        if i0['k'] == 'BinaryOperator' and i0.get('op') == '=' and A.strip_casts(i0['ch'][0])['k'] == 'DeclRefExpr' and 'd' in A.strip_casts(i0['ch'][0]):
+            var = A.strip_casts(i0['ch'][0])
     if var is not None and c0 is not None and c0['k'] == 'BinaryOperator' and c0.get('op') == '<' and A.strip_casts(c0['ch'][0]).get('d') == var['d']:
         return var, ev.val(c0['ch'][1], env, depth)
     if var is not None and c0 is not None and c0['k'] == 'CXXMemberCallExpr' and (c0.get('q') or '').endswith('::HasData') and c0.receiver() is not None \
@@ -263,7 +268,7 @@ class Evaluator(object):
                 return v if isinstance(v, dict) else atom(str(v))
             return atom(n.get('n', '?'))
         if k == 'MemberExpr':
-            if A.is_this_member(n) and n.get('n') in self.consts:
+            if n.get('n') in self.consts and (A.is_this_member(n) or n.get('dk') == 'Field'):
                 return P(self.consts[n['n']])
             return atom(self.key(n, env, depth))
         if k == 'BinaryOperator':
@@ -313,7 +318,12 @@ class Evaluator(object):
                 same_obj = (k == 'CallExpr') or n.receiver() is None or A.strip_casts(n.receiver())['k'] == 'CXXThisExpr'
                 if same_obj or g.rec.get('static'):
                     env2 = self.bind_vals(g, n, env, depth)
-                    return self.fn_value(g, env2, depth + 1)
+                    try:
+                        return self.fn_value(g, env2, depth + 1)
+                    except Outside:
+                        if k == 'CallExpr':
+                            return atom(self.key(n, env, depth))      # a helper on another object (e.g. size of a sub-Message): opaque
+                        raise
             return atom(self.key(n, env, depth))
         if k == 'UnaryExprOrTypeTraitExpr' and 'v' in n:
             return P(n['v'])
@@ -382,8 +392,11 @@ class Evaluator(object):
                 return True
             return False if (a is False and b is False) else None
         if n['k'] in ('CXXMemberCallExpr', 'CallExpr'):
-            v = pconst(self.val(n, env, depth))
-            if v is not None and n.type() == 'bool':
+            try:
+                v = pconst(self.val(n, env, depth))
+            except Outside:
+                v = None
+            if v is not None:
                 return bool(v)
         if n['k'] == 'DeclRefExpr' and n.get('d') in env and isinstance(env[n['d']], dict):
             v = pconst(env[n['d']])
